@@ -556,6 +556,142 @@ def name_list_cells(ctx):
             ctx.outcome("after-removal-silent")
 
 
+def dict_name_cells(ctx):
+    """Dict links whose trait name ends in letters of "_items" (parts, refs,
+    times): all histories of length <= 3 over key insertion, replacement,
+    deletion and a mixed update, fresh object per insertion; afterwards
+    every object ever created is changed: both mechanisms call exactly for
+    the objects the dict holds now"""
+    import itertools
+    from traits.api import Dict, HasTraits, Instance, Int, Str
+    evs = [("set", "a"), ("set", "b"), ("del", "a"), ("update", "a", "c"),
+           ("assign",)]
+    for tname in ("parts", "refs", "times"):
+        class Leaf(HasTraits):
+            value = Int
+        Holder = type("Holder", (HasTraits,),
+                      {tname: Dict(Str, Instance(Leaf))})
+        for n in (1, 2, 3):
+            for hist in itertools.product(evs, repeat=n):
+                ctx.case({"dict_name": tname,
+                          "history": [list(e) for e in hist]})
+                ctx.ev()
+                root = Holder()
+                made = []
+                legacy, obs = [], []
+
+                def hl(obj, name, old, new):
+                    if name == "value":
+                        legacy.append(obj)
+
+                def ho(ev):
+                    obs.append(ev.object)
+                root.on_trait_change(hl, tname + ".value")
+                root.observe(ho, tname + ":items:value")
+
+                def new():
+                    made.append(Leaf())
+                    return made[-1]
+                d = getattr(root, tname)
+                try:
+                    for ev in hist:
+                        d = getattr(root, tname)
+                        if ev[0] == "set":
+                            d[ev[1]] = new()
+                        elif ev[0] == "del":
+                            d.pop(ev[1], None)
+                        elif ev[0] == "update":
+                            d.update({ev[1]: new(), ev[2]: new()})
+                        else:
+                            setattr(root, tname, {"a": new()})
+                except Exception as exc:
+                    ctx.violation("C16:dict-name:raises:%s" % tname,
+                                  "raised %r" % (exc,),
+                                  history=[list(e) for e in hist])
+                    continue
+                now = list(getattr(root, tname).values())
+                for o in made:
+                    legacy.clear()
+                    obs.clear()
+                    ctx.tr()
+                    o.value += 1
+                    exp = 1 if any(o is x for x in now) else 0
+                    if (len(legacy), len(obs)) != (exp, exp):
+                        ctx.violation(
+                            "C16:dict-name:%s" % tname,
+                            "Dict trait %r: after %r an object that is %s "
+                            "the dict changed: legacy handler %d call(s), "
+                            "observe %d, expected %d" % (
+                                tname, hist, "in" if exp else "no longer in",
+                                len(legacy), len(obs), exp),
+                            history=[list(e) for e in hist])
+                        break
+                    ctx.outcome("leaf-called" if exp
+                                else "leaf-silent-detached")
+                ctx.state(("dict-name", tname, hist))
+
+
+def remove_unregistered_cells(ctx):
+    """remove=True for a handler that is not registered under the name (a
+    clean-up run twice) must leave the handlers that are registered there
+    alone"""
+    for name in ("child.value", "child:value", "kids.value"):
+        for when in ("never-registered", "removed-twice"):
+            ctx.case({"remove_unregistered": name, "when": when})
+            ctx.ev()
+            pool = G.make_pool()
+            root, n1, n2 = pool
+            root.child = n1
+            root.kids = [n1]
+            calls = []
+
+            def keep(obj, nm, old, new):
+                if nm == "value":
+                    calls.append(obj)
+
+            def other(obj, nm, old, new):
+                pass
+            root.on_trait_change(keep, name)
+            if when == "removed-twice":
+                root.on_trait_change(other, name)
+                root.on_trait_change(other, name, remove=True)
+            try:
+                root.on_trait_change(other, name, remove=True)
+            except Exception:
+                pass
+            # the surviving handler still follows the graph
+            root.child = n2
+            root.kids = [n2]
+            good = True
+            for o, exp in ((n1, 0), (n2, 1)):
+                calls.clear()
+                ctx.tr()
+                o.value += 1
+                if len(calls) != exp:
+                    good = False
+                    ctx.violation(
+                        "C16:remove-unregistered:%s" % when,
+                        "%s: after a removal naming a handler that is not "
+                        "registered, the registered handler got %d call(s) "
+                        "for %s, expected %d" % (name, len(calls),
+                                                 "the detached object"
+                                                 if exp == 0 else
+                                                 "the new object", exp),
+                        history=[["remove_unregistered", name, when]])
+                    break
+            if not good:
+                continue
+            root.on_trait_change(keep, name, remove=True)
+            calls.clear()
+            n2.value += 1
+            if calls:
+                ctx.violation("C16:remove-unregistered:%s:not-removed" % when,
+                              "the genuine removal left the handler hooked",
+                              history=[["remove_unregistered", name, when]])
+            else:
+                ctx.outcome("after-removal-silent")
+
+
 UI_Q = []
 
 
@@ -601,7 +737,8 @@ def ui_threaded(ctx):
 
 def shards(tier):
     out = [{"pair": "__decorated__"}, {"pair": "__ui_threaded__"},
-           {"pair": "__name_list__"}]
+           {"pair": "__name_list__"}, {"pair": "__dict_name__"},
+           {"pair": "__remove_unregistered__"}]
     for pair in PAIRS:
         n = len(menu(pair))
         for i in range(n):
@@ -624,6 +761,14 @@ def run_shard(ctx, shard, tier):
     if pair == "__name_list__":
         name_list_cells(ctx)
         ctx.depth_completed = 2
+        return
+    if pair == "__dict_name__":
+        dict_name_cells(ctx)
+        ctx.depth_completed = 3
+        return
+    if pair == "__remove_unregistered__":
+        remove_unregistered_cells(ctx)
+        ctx.depth_completed = 1
         return
     evs = menu(pair)
     depth = 4 if tier == "quick" else 5
@@ -658,6 +803,12 @@ def replay(rec):
     from mc.ctx import Ctx
     ctx = Ctx("C16", None, "quick", 0)
     c = rec.get("case") or rec
+    if c.get("dict_name") or c.get("remove_unregistered"):
+        (dict_name_cells if c.get("dict_name")
+         else remove_unregistered_cells)(ctx)
+        for v in ctx.violations.values():
+            print("  violation:", v["sig"], v["msg"])
+        return not ctx.violations
     if c.get("name_list"):
         name_list_cells(ctx)
         for v in ctx.violations.values():
